@@ -5,6 +5,7 @@ PCT walks) over pipelining scenarios; TLC judges every recorded trace with the
 property monitor spec/Pipeline.tla (clauses P04_*), and model-checks the
 implementation-shaped connection model spec/Channel.tla (see checks/chan_model.py)."""
 from checks import chan_common as cc
+from checks import chan_random
 from checks import chan_model
 
 LEVEL = "model_checking"
@@ -58,6 +59,15 @@ def scenarios(thorough):
                          read_before_await=True, name="plain+expect-head in one read (waits) la=%d slow client" % la))
     out.append(cc.mk([P(1), {"k": 2, "kind": "expect"}, P(3)], lookahead=0, workers=2, split="joinheads", waits=(2,),
                      name="plain+expect-head in one read, then plain"))
+    # two complete requests in front of the head of an expecting one: its interim response comes after both responses
+    for la in (0, 2):
+        out.append(cc.mk([P(1), P(2), {"k": 3, "kind": "expect"}], lookahead=la, workers=1, split="joinheads", waits=(3,),
+                         name="2plain+expect-head in one read (waits) la=%d" % la))
+    # stray CRLFs between two requests (an empty message the server drops): nothing is scheduled for them
+    for la, w in ((0, 2), (1, 2), (2, 1)):
+        out.append(cc.mk([P(1), {"k": 2, "kind": "plain", "lead": 2}], lookahead=la, workers=w, split="one", name="plain, CRLF CRLF, plain in one read la=%d w=%d" % (la, w)))
+    out.append(cc.mk([{"k": 1, "kind": "body"}, {"k": 2, "kind": "plain", "lead": 1}, {"k": 3, "kind": "plain", "lead": 2}], lookahead=1, workers=2, split="each",
+                     name="body, CRLF plain, CRLF CRLF plain, one read each la=1 w=2"))
     if thorough:
         out.append(cc.mk([P(1), P(2), P(3)], lookahead=2, workers=2, use_poll=True, name="3plain poll la=2"))
         out.append(cc.mk([P(1), {"k": 2, "kind": "body"}, {"k": 3, "kind": "expect"}], lookahead=1, workers=2, split="each", name="plain,body,expect each"))
@@ -69,6 +79,7 @@ def run(chk, replay=None):
     chan_model.model_check(chk, "C04", scns)
     n_pct, dfs = (700, 2400) if chk.thorough else (150, 700)
     cc.explore_and_validate(chk, "C04", scns, n_pct, dfs, bound=2, label="pipelining")
+    chan_random.explore(chk, "C04")
     chk.rule = ("cases = schedules of the real server (I/O loop + workers + client, pre-emption at every lock/socket/trigger operation and every access to a shared channel attribute) "
                 "over %d pipelining scenarios; DFS with pre-emption bound 2 + PCT priority walks; evaluations = distinct recorded traces judged by TLC; "
                 "non-trivial = >= 2 requests executed or a close/teardown occurred" % len(scns))
